@@ -48,9 +48,20 @@ func TestVerifC17DefaultChain(t *testing.T) {
 		if len(addrs) > 12 {
 			addrs = addrs[:12]
 		}
-		for _, addr := range addrs {
-			if addr.IsLoopback() || addr.Unmap().IsLoopback() {
-				continue // 127.0.0.255:0 is the documented internal sentinel; keep clear of loopback specials
+		// the internal sentinel is the address 127.0.0.255 *and* port 0 together; either half alone is a client like any other
+		type src struct {
+			addr netip.Addr
+			port int
+		}
+		var srcs []src
+		for _, a := range addrs {
+			srcs = append(srcs, src{a, 4242})
+		}
+		srcs = append(srcs, src{netip.MustParseAddr("127.0.0.255"), 4242}, src{vfgen.GenAddr().Draw(rt, "addr0"), 0})
+		for _, sc := range srcs {
+			addr := sc.addr
+			if (addr.IsLoopback() || addr.Unmap().IsLoopback()) && !(addr == netip.MustParseAddr("127.0.0.255") && sc.port != 0) {
+				continue // keep clear of the other loopback specials
 			}
 			proto := rapid.SampledFrom([]string{"udp", "tcp"}).Draw(rt, "proto")
 			wire := rapid.Bool().Draw(rt, "wire")
@@ -65,7 +76,7 @@ func TestVerifC17DefaultChain(t *testing.T) {
 				q.SetEdns0(1232, false)
 			}
 			raw, _ := q.Pack()
-			local, remote := vfAddrs(proto, ip, 4242)
+			local, remote := vfAddrs(proto, ip, sc.port)
 			before := stub.Calls()
 			var wrote [][]byte
 			if wire {
@@ -104,6 +115,9 @@ func TestVerifC17DefaultChain(t *testing.T) {
 			vfstat.Eval(U, 1)
 			cls := fmt.Sprintf("%s/wire=%v/allowed=%v", proto, wire, allowed)
 			vfstat.Class(U, cls)
+			if sc.port == 0 || addr == netip.MustParseAddr("127.0.0.255") {
+				vfstat.Class(U, fmt.Sprintf("half-sentinel-source/allowed=%v", allowed))
+			}
 			vfstat.NonTrivial(U, cls+fmt.Sprint(nmatch, len(parsed), addr.BitLen(), len(cidrs)-len(parsed)))
 			vfstat.Sample(U, cls, map[string]any{"access_list": cidrs, "src": ip.String(), "proto": proto, "wire_ingress": wire, "allowed": allowed, "replies": len(wrote), "upstream_calls": calls})
 		}
